@@ -22,12 +22,15 @@ static std::string cyc_json(const Cycle& c)
         std::to_string(c.hold) + ",\"us\":" + std::to_string(c.dur_us) + (c.submit_first ? ",\"modify_detach_first\":1" : "") + "}";
 }
 struct Stats {
-    std::atomic<uint64_t> nonnull{0}, null{0}, timed_null{0}, cycles{0};
+    std::atomic<uint64_t> nonnull{0}, null{0}, timed_null{0}, cycles{0}, nested{0};
     std::atomic<const void*> handle_mutex{nullptr};  // the mutex the wrapper's handles hold (learned from the first non-null handle)
 };
 
 template<class M>
-constexpr bool is_timed = std::is_same<M, vrf::timed_mutex_t>::value || std::is_same<M, vrf::shared_timed_mutex_t>::value;
+constexpr bool is_timed = std::is_same<M, vrf::timed_mutex_t>::value || std::is_same<M, vrf::shared_timed_mutex_t>::value ||
+    std::is_same<M, vrf::recursive_timed_mutex_t>::value;
+template<class M>
+constexpr bool is_recursive = std::is_same<M, vrf::recursive_mutex_t>::value || std::is_same<M, vrf::recursive_timed_mutex_t>::value;
 
 static void fail(const char* key, const Cycle& c, const std::string& extra = "")
 {
@@ -35,8 +38,11 @@ static void fail(const char* key, const Cycle& c, const std::string& extra = "")
 }
 
 // generic life cycle of one handle: H is lock_handle or shared_lock_handle
-template<class H, class Acquire, class AcquireOther>
-static void life(const Cycle& c, bool enabled, bool solo, Acquire acquire, AcquireOther acquire_other, Stats& st)
+struct NoNested {
+    void operator()() const {}
+};
+template<class H, class Acquire, class AcquireOther, class Nested = NoNested>
+static void life(const Cycle& c, bool enabled, bool solo, Acquire acquire, AcquireOther acquire_other, Stats& st, Nested nested = Nested())
 {
     size_t before = vrf::held_count();
     uint64_t lc0 = vrf::stats().lock_calls, cv0 = vrf::stats().cv_waits;
@@ -79,6 +85,7 @@ static void life(const Cycle& c, bool enabled, bool solo, Acquire acquire, Acqui
         if (nn) {
             Win w(*h, !c.shared);
             h->check("access under handle");
+            nested();
             for (int i = 0; i < c.hold; i++) {
                 if (i % 2) vrf::hyield();
                 else vrf::user_point();
@@ -144,7 +151,25 @@ static void run_thread(W& w, W& other, const std::vector<Cycle>& script, bool en
                     return w.lock();
                 };
                 auto acq_other = [&]() -> H { return other.try_lock(); };
-                life<H>(cc, enabled, solo, acq, acq_other, st);
+                if constexpr (is_recursive<M>) {
+                    // the owner of a recursive mutex re-enters: every nested acquisition form succeeds at once, counts once, releases once
+                    auto nested = [&] {
+                        if (!enabled) return;
+                        size_t b = vrf::held_count();
+                        {
+                            H n = (cc.hold % 2) ? w.try_lock() : w.lock();
+                            if (!n) fail("oracle:recursive_re_entry_by_the_owner_failed", cc);
+                            if (vrf::held_count() != b + 1) fail("oracle:nested_handle_without_its_own_acquisition", cc);
+                            n->check("nested access");
+                            if (cc.hold >= 3) n.unlock();
+                        }
+                        if (vrf::held_count() != b) fail("oracle:nested_handle_did_not_release_exactly_once", cc);
+                        st.nested.fetch_add(1, std::memory_order_relaxed);
+                    };
+                    life<H>(cc, enabled, solo, acq, acq_other, st, nested);
+                } else {
+                    life<H>(cc, enabled, solo, acq, acq_other, st);
+                }
             }
         } else {
             if constexpr (HAS_SHARED) {
@@ -177,7 +202,7 @@ static void run_thread(W& w, W& other, const std::vector<Cycle>& script, bool en
 enum Fam { GUARDED, GUARDED_OPT_ON, GUARDED_OPT_OFF, SHARED, SHARED_OPT_ON, SHARED_OPT_OFF, ORDERED, DEFERRED, NFAM };
 static const char* const FAMN[] = {"guarded", "guarded_opt(true)", "guarded_opt(false)", "shared_guarded", "shared_guarded_opt(true)", "shared_guarded_opt(false)",
                                    "ordered_guarded", "deferred_guarded"};
-static const char* const MUTN[] = {"mutex", "timed_mutex", "shared_mutex", "shared_timed_mutex"};
+static const char* const MUTN[] = {"mutex", "timed_mutex", "shared_mutex", "shared_timed_mutex", "recursive_mutex", "recursive_timed_mutex"};
 
 template<class W, class M, bool HAS_EXCL, bool HAS_SHARED, class Mk>
 static void round_on(long r, int fam, int mut, bool enabled, Mk make)
@@ -238,6 +263,7 @@ static void round_on(long r, int fam, int mut, bool enabled, Mk make)
     vrf::count("handle_life_cycles", st.cycles.load());
     vrf::count("handles_null", st.null.load());
     vrf::count("handles_non_null", st.nonnull.load());
+    if (st.nested.load()) vrf::count("nested_recursive_acquisitions", st.nested.load());
     vrf::count(std::string("rounds_") + FAMN[fam]);
     if (r % 5000 == 0) vrf::sample(pj);
 }
@@ -270,13 +296,30 @@ static void dispatch_fam(long r, int fam, int mut)
     }
 }
 
+template<class M>
+static void dispatch_excl(long r, int fam, int mut)
+{
+    switch (fam) {
+        case GUARDED: round_on<guarded<Cell, M>, M, true, false>(r, fam, mut, true, [] { return new guarded<Cell, M>(true); }); break;
+        case GUARDED_OPT_ON: round_on<guarded_opt<Cell, M>, M, true, false>(r, fam, mut, true, [] { return new guarded_opt<Cell, M>(true, true); }); break;
+        default: round_on<guarded_opt<Cell, M>, M, true, false>(r, fam, mut, false, [] { return new guarded_opt<Cell, M>(false, false); }); break;
+    }
+}
+
 int main(int argc, char** argv)
 {
     vrf::init(argc, argv, "C08");
     for (long r = 0; r < vrf::cfg.rounds; r++) {
         if (!vrf::want_round(r)) continue;
-        int combo = static_cast<int>((static_cast<uint64_t>(r) + static_cast<uint64_t>(vrf::cfg.proc) * 11) % 32);
+        int combo = static_cast<int>((static_cast<uint64_t>(r) + static_cast<uint64_t>(vrf::cfg.proc) * 11) % 38);
         int fam = combo / 4, mut = combo % 4;
+        if (combo >= 32) {  // the exclusive-only wrappers over the recursive mutex types
+            fam = (combo - 32) / 2;
+            mut = 4 + (combo - 32) % 2;
+            if (mut == 4) dispatch_excl<vrf::recursive_mutex_t>(r, fam, mut);
+            else dispatch_excl<vrf::recursive_timed_mutex_t>(r, fam, mut);
+            continue;
+        }
         switch (mut) {
             case 0: dispatch_fam<vrf::mutex_t>(r, fam, mut); break;
             case 1: dispatch_fam<vrf::timed_mutex_t>(r, fam, mut); break;
